@@ -423,8 +423,9 @@ def sum_chi2_ppf(x, weights=(0,1)):
     x = numpy.atleast_1d(x)
     # Calculate total cdf of all chi^2 dists with dof > 1.
     # (ssd.chi2.cdf(x,0) is always nan, so we avoid that.)
-    cdf = numpy.sum([w*ssd.chi2.cdf(x, d+1) for (d, w)
-                     in enumerate(weights[1:])], axis=0)
+    cdf = numpy.zeros(x.shape)
+    for (d, w) in enumerate(weights[1:]):
+        cdf += w*ssd.chi2.cdf(x, d+1)
     # Add in contribution from 0 d.o.f.
     cdf[x > 0] += weights[0]
     # Convert to ppf
